@@ -466,6 +466,17 @@ example : sectionIds (sectionsOf (some 1000) [⟨0, .cand, .simple ⟨100, 300, 
     sectionIds (sectionsOf (some 1000) [⟨2, .cand, .simple ⟨700, 900, .fwd⟩, [], [], []⟩, ⟨1, .cand, .simple ⟨250, 400, .fwd⟩, [], [], []⟩,
       ⟨0, .cand, .simple ⟨100, 300, .fwd⟩, [], [], []⟩] []) = some [[0, 1], [2]] := by decide +kernel
 
+/-- **circular records with origin-spanning areas**: all areas well-formed areas of the ring (single parts
+    inside the record, or two parts meeting at the origin), none a single part covering the whole record, no two
+    with the same (first base counted round from the origin, length).  Then the ORDERED regions — including the
+    merge of the last section into the first over the origin — are a function of the multiset of areas. -/
+theorem create_regions_order_on_ring_partial (L : Int) (c₁ s₁ c₂ s₂ : List Regions.Feat)
+    (hl : ∀ a ∈ c₁ ++ s₁, RingArea L a.loc)
+    (hfull : ∀ a ∈ c₁ ++ s₁, ∀ p, a.loc = .simple p → ¬ (p.lo = 0 ∧ p.hi = L))
+    (hd : ∀ a ∈ c₁ ++ s₁, ∀ b ∈ c₁ ++ s₁, ringKey L a.loc = ringKey L b.loc → a = b)
+    (hp : (c₁ ++ s₁).Perm (c₂ ++ s₂)) : sectionsOf (some L) c₁ s₁ = sectionsOf (some L) c₂ s₂ :=
+  create_regions_order_is_function_of_multiset_partial (some L) _ c₁ s₁ c₂ s₂ (separatingKey_ring hl hfull hd) hp
+
 /-- … and so is the record after `create_regions(candidate_clusters, subregions)` -/
 theorem create_regions_state_is_function_of_multiset_partial (s : Regions.State) (key : Regions.Feat → Int × Int)
     (c₁ s₁ c₂ s₂ : List Regions.Feat) (h : SeparatingKey key (c₁ ++ s₁)) (hc : c₁.Perm c₂) (hs : s₁.Perm s₂) :
@@ -501,6 +512,23 @@ def originMerge : List Regions.Feat :=
 theorem create_regions_set_merge_witness :
     sectionIds (sectionsOfE id (some 1000) originMerge []) ≠ sectionIds (sectionsOfE List.reverse (some 1000) originMerge []) ∧
     sectionIds (sectionsOf (some 1000) originMerge []) = some [[0, 2, 3, 4], [1]] := by decide +kernel
+
+/-- the origin-merge layout (an origin-spanning candidate, one far away, three before the origin reaching it)
+    meets the hypotheses -/
+example : (∀ a : Regions.Feat, a ∈ originMerge → RingArea 1000 a.loc) ∧
+    (∀ a : Regions.Feat, a ∈ originMerge → ∀ p : Part, a.loc = .simple p → ¬ (p.lo = 0 ∧ p.hi = 1000)) ∧
+    (∀ a : Regions.Feat, a ∈ originMerge → ∀ b : Regions.Feat, b ∈ originMerge →
+      ringKey 1000 a.loc = ringKey 1000 b.loc → a = b) := by
+  refine ⟨?_, ?_, ?_⟩
+  · intro a ha
+    simp only [originMerge, List.mem_cons, List.mem_nil_iff, or_false] at ha
+    rcases ha with rfl | rfl | rfl | rfl | rfl
+    · exact Or.inr ⟨970, 30, rfl, by omega, by omega, by omega⟩
+    all_goals exact Or.inl ⟨_, rfl, by simp, by simp, by simp⟩
+  · intro a ha p hp
+    simp only [originMerge, List.mem_cons, List.mem_nil_iff, or_false] at ha
+    rcases ha with rfl | rfl | rfl | rfl | rfl <;> simp at hp <;> subst hp <;> simp
+  · decide
 
 /-- non-vacuity of the hypotheses: the promoted-pair layout has distinct tie keys, and permuting
     it leaves the ordered result alone -/
